@@ -13,8 +13,8 @@
 From Coq Require Import NArith ZArith List Bool.
 From XV Require Import Base.Str Base.Eqb Spec.XmlNs Model.Writer Model.TreeBuilder
   Model.Bind Model.Parser Model.Reader Model.ReaderCorr
-  Proofs.WriterRefute Proofs.WriterSound Proofs.ReaderWriters
-  Proofs.ParserNs Proofs.ReaderMaps Proofs.ReaderAgree Proofs.ReaderConv Proofs.ReaderWitness Proofs.ReaderRefute.
+  Proofs.WriterSound Proofs.ReaderWriters
+  Proofs.ParserNs Proofs.ReaderMaps Proofs.ReaderAgree Proofs.ReaderConv Proofs.ReaderWitness Proofs.ReaderRefute Proofs.ReaderEt.
 From XV Require Model.ConvQName.
 Import ListNotations.
 
@@ -39,13 +39,9 @@ Theorem C08_writers_and_tree_agree : forall cfg user evs,
 Proof. exact writers_and_tree_agree. Qed.
 Print Assumptions C08_writers_and_tree_agree.
 
-(* outside the guard the writers do differ (finding C08-F2; the guard clauses are C03's) *)
-Theorem C08_writers_agree_unguarded_refuted :
-  exists cfg user evs,
-    writer_guard cfg user evs = false
-    /\ native_sound_b cfg user evs = false /\ lxml_sound_b cfg user evs = true.
-Proof. exact writers_agree_unguarded_refuted. Qed.
-Print Assumptions C08_writers_agree_unguarded_refuted.
+(* outside the guard (C03's clauses) the writers can differ; the former witness (finding C08-F2/F5:
+   user map binding the default namespace + an attribute in it) was repaired in tefra/xsdata
+   by commit 4948c8b and is now inside the guard *)
 
 (* ================================================================== (ii) the two pumps *)
 (* for EVERY document (whose elements do not declare a prefix twice), against a parser that
@@ -146,3 +142,14 @@ Theorem C08_et_source_agrees_refuted :
     /\ native_parse cfg c u root (et_tokens e) <> native_parse cfg c u root (doc_tokens e).
 Proof. exact et_source_agrees_refuted. Qed.
 Print Assumptions C08_et_source_agrees_refuted.
+
+(* guarded: a document without namespaces (no declarations, unqualified element names) *)
+Theorem C08_et_source_agrees : forall cfg c u root e, no_namespaces e = true ->
+  native_parse cfg c u root (et_tokens e) = native_parse cfg c u root (doc_tokens e).
+Proof. exact et_source_agrees. Qed.
+Print Assumptions C08_et_source_agrees.
+
+Example C08_et_source_agrees_nonvacuous :
+  no_namespaces doc_plain = true
+  /\ exists v, native_parse lenient_cfg qconv u_skip_qname (Some root_skip_qname) (et_tokens doc_plain) = Ok v [].
+Proof. exact et_source_agrees_nonvacuous. Qed.
